@@ -33,13 +33,14 @@ struct RawOps {
     bool (*search_at_type)(PDU&, int type_sel);
 };
 static Bytes g_data = pattern(40, 0x51);
+static std::vector<int> g_rawlens = {0, 3, 9};
 template <class Q, class Opt, class CtorT, class Type> RawOps raw_ops(const std::vector<int>& types) {
     static std::vector<int> ty; ty = types;
     RawOps r;
     r.applies = [](PDU& p) { return dynamic_cast<Q*>(&p) != 0; };
     r.count = [](PDU& p) { return (size_t)static_cast<Q&>(p).options().size(); };
     r.add = [](PDU& p, int ts, int len) { static_cast<Q&>(p).add_option(Opt((CtorT)ty[ts % ty.size()], len, g_data.data())); };
-    r.remove_at = [](PDU& p, size_t i) { Q& q = static_cast<Q&>(p); if (i >= q.options().size()) return false; auto it = q.options().begin(); std::advance(it, i); return q.remove_option((Type)it->option()); };
+    r.remove_at = [](PDU& p, size_t i) { Q& q = static_cast<Q&>(p); auto opts = q.options(); if (i >= opts.size()) return false; auto it = opts.begin(); std::advance(it, i); return q.remove_option((Type)it->option()); };
     r.search_at_type = [](PDU& p, int ts) { return static_cast<Q&>(p).search_option((Type)ty[ts % ty.size()]) != 0; };
     return r;
 }
@@ -118,8 +119,10 @@ static bool equal_modulo_padding(const std::string& want, const std::string& got
     }
     return i == want.size() && j == got.size();
 }
+static std::string strip_aux(std::string v) { size_t p; while ((p = v.find("aux_data=x")) != std::string::npos) { size_t e = v.find(';', p); v.erase(p, e == std::string::npos ? std::string::npos : e - p); } return v; }
 static bool has_empty_container(const std::string& shown) { return shown.find("[]") != std::string::npos || shown.find("=x;") != std::string::npos || shown == "x" || shown == "\"\"" || shown.find("\"\"") != std::string::npos; }
 
+static long hdr_size(const std::map<std::string, std::string>& m) { long v = 0; for (auto& kv : m) if (kv.first.size() > 12 && kv.first.compare(kv.first.size() - 12, 12, ".header_size") == 0) v = std::max(v, atol(kv.second.c_str())); return v; }
 static std::string wire_check(S& s) {
     // serialize the object alone and parse it back with its own class
     if (needs_environment(*s.o)) static_cast<IP&>(*s.o).src_addr("10.9.8.7");
@@ -134,6 +137,8 @@ static std::string wire_check(S& s) {
     auto a = snapshot(*s.o), b = snapshot(*q);
     for (auto& kv : a) {
         if (always_derived(kv.first) || protocol_tag(kv.first) || size_key(kv.first) || type_dependent(kv.first) || kv.first == "BootP.vend" || kv.first == "Dot1Q.append_padding") continue;
+        if (g_cls == "ICMPv6" && !g_applicable.count("ICMPv6.options") && b[kv.first].find("option_not_found") != std::string::npos) continue;   // this message type has no option area
+        if (kv.first == "ICMPv6.multicast_address_records" && strip_aux(kv.second) == strip_aux(b[kv.first])) continue;   // aux data is counted in 32-bit words
         if (b[kv.first] != kv.second && !equal_modulo_padding(kv.second, b[kv.first]))
             return "wire:field-differs:" + kv.first + "|built " + kv.second.substr(0, 220) + " parsed " + b[kv.first].substr(0, 220) + " wire=" + hex(y).substr(0, 200);
     }
@@ -161,7 +166,7 @@ static std::string step(S& s, const Op& op) {
             if (after != before) return "api:rejected-but-changed:" + key + "|";
         } else {
             // additive setters append an option: the typed getter then returns the FIRST matching option
-            bool additive = atol(after["PDU.header_size"].c_str()) > atol(before["PDU.header_size"].c_str());
+            bool additive = hdr_size(after) > hdr_size(before);
             std::string want = sd.shown(op.b);
             const std::string& was = before[key];
             bool had_match = !was.empty() && was.find("option_not_found") == std::string::npos && was.find("field_not_present") == std::string::npos;
@@ -228,7 +233,7 @@ static std::vector<ClassCfg> classes() {
     v.push_back(ClassCfg{"ICMPv6", []() -> PDU* { return new ICMPv6(ICMPv6::MGM_QUERY); }, &parse_q<ICMPv6>, RawOps(), false,
                          {"ICMPv6.multicast_addr", "ICMPv6.sources", "ICMPv6.qqic", "ICMPv6.qrv", "ICMPv6.supress"}, {"type"}});
     v.push_back(ClassCfg{"ICMPv6", []() -> PDU* { return new ICMPv6(ICMPv6::MLD2_REPORT); }, &parse_q<ICMPv6>, RawOps(), false,
-                         {"ICMPv6.multicast_address_records"}, {"type"}});
+                         {"ICMPv6.multicast_address_records"}, {"type", "sequence", "router_lifetime"}});
     v.push_back(ClassCfg{"ICMPv6", []() -> PDU* { return new ICMPv6(ICMPv6::ECHO_REQUEST); }, &parse_q<ICMPv6>, RawOps(), false, {}, {}});
     v.push_back(ClassCfg{"ICMP", []() -> PDU* { return new ICMP(ICMP::TIMESTAMP_REQUEST); }, &parse_q<ICMP>, RawOps(), false,
                          {"ICMP.original_timestamp", "ICMP.receive_timestamp", "ICMP.transmit_timestamp"}, {"type"}});
@@ -267,7 +272,8 @@ static void run_class(const ClassCfg& c, int variant, int maxdepth, const std::s
     }
     Explorer<S, Op> ex;
     for (size_t i = 0; i < g_setters.size(); ++i) for (int k = 0; k < g_setters[i].ns; ++k) ex.alphabet.push_back(Op{0, (int)i, k});
-    if (g_raw) { for (int t = 0; t < 3; ++t) for (int len : {0, 3, 9}) ex.alphabet.push_back(Op{1, t, len}); ex.alphabet.push_back(Op{2, 0, 0}); ex.alphabet.push_back(Op{2, 1, 0}); }
+    g_rawlens = (c.name == "ICMPv6") ? std::vector<int>{6, 14, 22} : std::vector<int>{0, 3, 9};   // ND options are whole multiples of 8 octets
+    if (g_raw) { for (int t = 0; t < 3; ++t) for (int len : g_rawlens) ex.alphabet.push_back(Op{1, t, len}); ex.alphabet.push_back(Op{2, 0, 0}); ex.alphabet.push_back(Op{2, 1, 0}); }
     ex.context = "class=" + c.name + " variant=" + std::to_string(variant) + " depth=" + std::to_string(maxdepth);
     ex.op_str = [](const Op& o) { return o.kind == 0 ? g_setters[o.a].name + "#" + std::to_string(o.b) : o.kind == 1 ? "add" + std::to_string(o.a) + "." + std::to_string(o.b) : "rem" + std::to_string(o.a); };
     ex.init = []() { S s; s.o.reset(g_make()); return s; };
